@@ -350,9 +350,23 @@ def sampler_slots(mod, session):
         envs = _envelopes(mod)
         e = envs[v % len(envs)]
         w = v >> 4
-        kind = w % 6
+        kind = w % (8 if CUR_LAYOUT >= 2 else 6)
         w >>= 3
         lo, hi = e.range
+        if kind in (6, 7):
+            # edit ONE point in place (x or y), leaving the rest of the envelope alone; the point
+            # index comes from the low bits so that a focused history returns to the same point
+            if not e.points:
+                e.points = [(0, lo)]
+            j = (v >> 7) % len(e.points)
+            x, y = e.points[j]
+            if kind == 6:
+                small = [c for c in (-2, -1, 0, 1, 2) if lo <= c <= hi]
+                y = small[(w >> 1) % len(small)] if (w & 1 and small) else pick_int(w >> 1, lo, hi)
+            else:
+                x = pick_int(w, 0, 65535)
+            e.points[j] = (x, y)
+            return
         if kind == 0:
             n = w % 13
             pts = []
